@@ -128,6 +128,8 @@ type lease struct {
 	sender types.StreamSender
 	recv   *receiver
 	lst    *listener
+	ending chan<- struct{} // non-nil: the destroying goroutine is held at the request resource
+	ended  bool            // destroy begun (dbegin) - the stream takes no further operation
 }
 
 // ---- one pool under test
@@ -142,6 +144,7 @@ type world struct {
 	all    []*lease
 	g0conn int64
 	g0req  int64
+	gate   *xc09.GatedResource
 	mu     sync.Mutex
 }
 
@@ -157,6 +160,7 @@ func newWorld(b *binding, mc, mr int) *world {
 	dead := cluster.NewSimpleHost(v2.Host{HostConfig: v2.HostConfig{Address: b.dead, Hostname: "up", Weight: 1}}, info)
 	w := &world{b: b, info: info, reg: xc09.NewRegistry(), leases: map[int]*lease{}}
 	w.host = &xc09.Host{Host: live, Dead: dead, Reg: w.reg}
+	w.gate = w.host.GateRequests()
 	w.pool = b.newPool(newCtx(), w.host)
 	w.g0conn = w.host.HostStats().UpstreamConnectionActive.Count()
 	w.g0req = w.host.HostStats().UpstreamRequestActive.Count()
@@ -270,7 +274,7 @@ func (w *world) liveLease(c int) *lease {
 	w.mu.Lock()
 	defer w.mu.Unlock()
 	l := w.leases[c]
-	if l == nil || l.lst.isDestroyed() || l.up == nil {
+	if l == nil || l.lst.isDestroyed() || l.up == nil || l.ended {
 		return nil
 	}
 	return l
@@ -390,6 +394,52 @@ func (w *world) apply(o op, e vh.Ev) (feasible bool) {
 			}
 		}
 		return true
+	case "dbegin":
+		// the upstream answers; the goroutine that destroys the stream is held after it released the
+		// request resource and before the pool decides about its idle list
+		l := w.liveLease(o.C)
+		if l == nil {
+			return false
+		}
+		e["c"], e["res"] = o.C, "ok"
+		entered, release := w.gate.Arm()
+		l.up.Answered()
+		l.up.C.Write(w.b.wire.Response(l.reqid))
+		l.ended = true
+		select {
+		case <-entered:
+			l.ending = release
+		case <-l.lst.destroyed:
+			w.gate.Disarm() // this pool does not release the resource on the destroy path: nothing to hold
+			e["nogate"] = true
+		case <-time.After(opDeadline):
+			w.gate.Disarm()
+			e["res"] = "stuck"
+		}
+		return true
+	case "dend":
+		w.mu.Lock()
+		l := w.leases[o.C]
+		w.mu.Unlock()
+		if l == nil || !l.ended || l.lst.isDestroyed() && l.ending != nil {
+			return false
+		}
+		e["c"], e["res"] = o.C, "ok"
+		if l.ending != nil {
+			close(l.ending)
+			l.ending = nil
+		}
+		if !waitCh(l.lst.destroyed) {
+			e["res"] = "stuck"
+		} else if r := l.lst.reset.Load(); r != nil {
+			e["res"] = "reset:" + fmt.Sprint(r)
+		} else if !waitCh(l.recv.done) {
+			e["res"] = "stuck"
+		}
+		w.mu.Lock()
+		delete(w.leases, o.C)
+		w.mu.Unlock()
+		return true
 	case "rclose":
 		conn := w.reg.Get(o.C)
 		if conn == nil || !conn.Open() {
@@ -404,6 +454,16 @@ func (w *world) apply(o op, e vh.Ev) (feasible bool) {
 		l := w.liveLease(o.C)
 		uc.Answered()
 		uc.C.Close()
+		w.mu.Lock()
+		held := w.leases[o.C] != nil && w.leases[o.C].ending != nil
+		w.mu.Unlock()
+		if held && w.b.name != "http1" {
+			// xprotocol handles the response in the connection's read goroutine, which is the one held:
+			// the close is then noticed by another goroutine of the connection (write loop, idle timer,
+			// keep-alive), all of which end in this call
+			e["via"] = "close-call"
+			conn.ClientConnection.Close(api.NoFlush, api.RemoteClose)
+		}
 		if !conn.WaitClosed(opDeadline) {
 			e["res"] = "stuck"
 		}
@@ -447,6 +507,15 @@ func (w *world) apply(o op, e vh.Ev) (feasible bool) {
 // end closes everything at the upstream. Gauges and resources are per case (unique cluster name),
 // so late close events of this case cannot disturb the next one.
 func (w *world) end(dead bool) {
+	w.gate.Disarm()
+	w.mu.Lock()
+	for _, l := range w.all {
+		if l.ending != nil {
+			close(l.ending)
+			l.ending = nil
+		}
+	}
+	w.mu.Unlock()
 	w.b.up.CloseAll()
 }
 
